@@ -8,72 +8,7 @@
 #include "cif.h"
 #include "internal/ciftypes.h"
 #include "internal/utils.h"
-static UChar KEYA[2] = { 'a', 0 };
-static cif_value_tp *mk_char(void) {
-    cif_value_tp *v = NULL; UChar t[3]; int rc; t[0] = vnd_u16(); t[1] = vnd_u16(); t[2] = 0; V_ASSUME(t[0] != 0 && t[1] != 0);   /* concrete length, symbolic content */
-    rc = cif_value_create(CIF_UNK_KIND, &v); V_ASSUME(rc == CIF_OK);
-    rc = cif_value_copy_char(v, t); V_ASSUME(rc == CIF_OK);
-    if (vnd_bool()) v->as_char.quoted = CIF_NOT_QUOTED;
-    return v;
-}
-static cif_value_tp *mk_kind(cif_kind_tp k) { cif_value_tp *v = NULL; int rc = cif_value_create(k, &v); V_ASSUME(rc == CIF_OK); return v; }
-static cif_value_tp *mk_numb(void) {
-    cif_value_tp *v = mk_kind(CIF_UNK_KIND); UChar *t = (UChar *) malloc(5 * sizeof(UChar)); int rc; V_MALLOC_OK(t);
-    t[0] = vnd_u16(); t[1] = '.'; t[2] = vnd_u16(); t[3] = 0; V_ASSUME(t[0] >= '1' && t[0] <= '9' && t[2] >= '0' && t[2] <= '9');   /* no leading zero: digit-string length stays concrete */
-    rc = cif_value_parse_numb(v, t); V_ASSUME(rc == CIF_OK);
-    return v;
-}
-static cif_value_tp *build(int shape) {
-    cif_value_tp *v, *e, *f; int rc;
-    switch (shape) {
-    case 0: return mk_char();
-    case 1: return mk_kind(CIF_UNK_KIND);
-    case 2: return mk_kind(CIF_NA_KIND);
-    case 3: return mk_numb();
-    case 4: v = mk_kind(CIF_LIST_KIND); e = mk_char(); rc = cif_value_insert_element_at(v, 0, e); V_ASSUME(rc == CIF_OK); cif_value_free(e);
-            e = mk_kind(CIF_NA_KIND); rc = cif_value_insert_element_at(v, 1, e); V_ASSUME(rc == CIF_OK); cif_value_free(e); return v;
-    case 5: v = mk_kind(CIF_TABLE_KIND); e = mk_char(); rc = cif_value_set_item_by_key(v, KEYA, e); V_ASSUME(rc == CIF_OK); cif_value_free(e); return v;
-    case 6: v = mk_kind(CIF_LIST_KIND); f = mk_kind(CIF_LIST_KIND); e = mk_char(); rc = cif_value_insert_element_at(f, 0, e); V_ASSUME(rc == CIF_OK); cif_value_free(e);
-            rc = cif_value_insert_element_at(v, 0, f); V_ASSUME(rc == CIF_OK); cif_value_free(f); return v;
-    default: v = mk_kind(CIF_TABLE_KIND); f = mk_kind(CIF_LIST_KIND); e = mk_char(); rc = cif_value_insert_element_at(f, 0, e); V_ASSUME(rc == CIF_OK); cif_value_free(e);
-            rc = cif_value_set_item_by_key(v, KEYA, f); V_ASSUME(rc == CIF_OK); cif_value_free(f); return v;
-    }
-}
-static int bad;
-static void same_scalar(cif_value_tp *a, cif_value_tp *b) {
-    if (a == b || a->kind != b->kind) { bad = 1; return; }
-    if (a->kind == CIF_CHAR_KIND) {
-        if (a->as_char.text == b->as_char.text || a->as_char.quoted != b->as_char.quoted) bad = 1;
-        if (a->as_char.text[0] != b->as_char.text[0] || a->as_char.text[1] != b->as_char.text[1] || (a->as_char.text[1] && a->as_char.text[2] != b->as_char.text[2])) bad = 1;
-    } else if (a->kind == CIF_NUMB_KIND) {
-        int i;
-        if (a->as_numb.text == b->as_numb.text || a->as_numb.digits == b->as_numb.digits) bad = 1;
-        if (a->as_numb.sign != b->as_numb.sign || a->as_numb.scale != b->as_numb.scale || a->as_numb.quoted != b->as_numb.quoted) bad = 1;
-        for (i = 0; i < 4; i++) { if (a->as_numb.text[i] != b->as_numb.text[i]) bad = 1; if (!a->as_numb.text[i]) break; }
-        for (i = 0; i < 3; i++) { if (a->as_numb.digits[i] != b->as_numb.digits[i]) bad = 1; if (!a->as_numb.digits[i]) break; }
-        if ((a->as_numb.su_digits == NULL) != (b->as_numb.su_digits == NULL)) bad = 1;
-    }
-}
-/* deep comparison along the concrete shape */
-static void same(int shape, cif_value_tp *a, cif_value_tp *b) {
-    cif_value_tp *x = NULL, *y = NULL; size_t n = 0, m = 0;
-    if (a == b || a->kind != b->kind) { bad = 1; return; }
-    switch (shape) {
-    case 0: case 1: case 2: case 3: same_scalar(a, b); break;
-    case 4: cif_value_get_element_count(a, &n); cif_value_get_element_count(b, &m); if (n != 2 || m != 2) { bad = 1; return; }
-            cif_value_get_element_at(a, 0, &x); cif_value_get_element_at(b, 0, &y); same_scalar(x, y);
-            cif_value_get_element_at(a, 1, &x); cif_value_get_element_at(b, 1, &y); same_scalar(x, y); break;
-    case 5: cif_value_get_element_count(b, &m); if (m != 1) { bad = 1; return; }
-            if (cif_value_get_item_by_key(a, KEYA, &x) != CIF_OK || cif_value_get_item_by_key(b, KEYA, &y) != CIF_OK) { bad = 1; return; } same_scalar(x, y); break;
-    case 6: cif_value_get_element_count(b, &m); if (m != 1) { bad = 1; return; }
-            cif_value_get_element_at(a, 0, &x); cif_value_get_element_at(b, 0, &y); if (!x || !y || x == y || y->kind != CIF_LIST_KIND) { bad = 1; return; }
-            a = x; b = y; cif_value_get_element_count(b, &m); if (m != 1) { bad = 1; return; }
-            cif_value_get_element_at(a, 0, &x); cif_value_get_element_at(b, 0, &y); same_scalar(x, y); break;
-    default: if (cif_value_get_item_by_key(a, KEYA, &x) != CIF_OK || cif_value_get_item_by_key(b, KEYA, &y) != CIF_OK || x == y || y->kind != CIF_LIST_KIND) { bad = 1; return; }
-            a = x; b = y; cif_value_get_element_count(b, &m); if (m != 1) { bad = 1; return; }
-            cif_value_get_element_at(a, 0, &x); cif_value_get_element_at(b, 0, &y); same_scalar(x, y); break;
-    }
-}
+#include "value_shapes.h"
 void harness(void) {
     cif_value_tp *orig = build(SHAPE), *copy = NULL, *witness = NULL; int rc, which = WHICH;   /* concrete per instance; the driver enumerates 0..3 */
 #ifdef INTO_EXISTING
